@@ -400,6 +400,10 @@ def main(ctx):
     # growth module: the agreement protocol that PRODUCES certificates (BA.tla; N real engines running the real loop())
     ba = vlib.run_extra(ctx, "extra_ba", quick)
     cov["agreement_protocol"] = ba
+    # unbounded proofs (TLAPS) of the specification-level halves of the property: AcceptA => QuorumA, QuorumA /\ NoForeignA => AcceptA,
+    # and what the vote counter holds whenever it can emit (any number of votes, any approved set, any required count)
+    cov["tlaps"] = vlib.tlaps(ctx, "CertProof")
+    ctx.log("TLAPS CertProof: %s/%s obligations discharged in %ss" % (cov["tlaps"].get("discharged"), cov["tlaps"].get("obligations"), cov["tlaps"]["wall_s"]))
     cov["states"] += ba.get("ba_states", 0) if isinstance(ba.get("ba_states", 0), int) else 0
     cov["transitions"] += ba.get("ba_transitions", 0) if isinstance(ba.get("ba_transitions", 0), int) else 0
     return vlib.finish(ctx, "model_checking", cov, assumptions=ASSUMPTIONS)
